@@ -13,6 +13,10 @@ OUTSIDE = ["more than 5 pages / 3 prefixes; token paths of more than 12 base-64 
            "one insertion between calls (any position)"]
 
 TPL = [["batch", 0, [1, 2, 3]], ["page", 2, True], ["page", 4, False], ["we", [[0, 3]]]]
+# two prefixes with two pages each, crawled marks symbolic (crawled-only pagination across a prefix boundary)
+MARKS_POOL = [{"hosts": 2}, {"extend": 0, "paths": 1}, {"extend": 0, "paths": 1}, {"hosts": 2}, {"extend": 3, "paths": 1}, {"extend": 3, "paths": 1}]
+# pages three stems below the prefix on two branches (token paths of four and more moves)
+DEEP_POOL = [{"hosts": 2}, {"extend": 0, "paths": 2}, {"extend": 1, "paths": 1}, {"extend": 1, "paths": 1}, {"extend": 0, "paths": 3}]
 
 
 def levels(tier):
@@ -24,6 +28,10 @@ def levels(tier):
              "pool": POOL5, "ks": [1, 2, 3, 6], "insert": False},
             {"name": "insert", "mode": "pages", "n": 0, "prelude": TPL + [["we", [[3, 3]]]], "alphabet": ["page"], "defaults": ["never"],
              "pool": POOL5, "ks": [1, 2], "insert": True},
+            {"name": "marks", "mode": "pages", "n": 0, "prelude": [["we", [[0, 3], [3, 3]]]], "flag_pages": [1, 2, 4, 5], "alphabet": ["page"],
+             "defaults": ["never"], "pool": MARKS_POOL, "ks": [1, 2], "insert": False},
+            {"name": "deep", "mode": "pages", "n": 0, "prelude": [["we", [[0, 3]]], ["page", 2, False], ["page", 3, True], ["page", 4, False]],
+             "alphabet": ["page"], "defaults": ["never"], "pool": DEEP_POOL, "ks": [1, 2, 3], "insert": False},
         ]
     return [
         {"name": "codec", "mode": "codec", "digits": [1, 2, 3, 4, 6, 8, 12], "prefix_indices": [0, 1, 9, 10, 123]},
@@ -32,6 +40,10 @@ def levels(tier):
          "pool": POOL5, "ks": [1, 2, 3, 4, 5, 6], "insert": True},
         {"name": "n3", "mode": "pages", "n": 3, "alphabet": ["page", "we", "addprefix"], "defaults": ["never"],
          "pool": [POOL4[0], POOL4[1], POOL4[3]], "ks": [1, 2, 4], "insert": True},
+        {"name": "marks", "mode": "pages", "n": 1, "prelude": [["we", [[0, 3], [3, 3]]]], "flag_pages": [1, 2, 4, 5, 0], "alphabet": ["page", "we"],
+         "defaults": ["never"], "pool": MARKS_POOL, "ks": [1, 2, 3], "insert": True},
+        {"name": "deep", "mode": "pages", "n": 1, "prelude": [["we", [[0, 3]]], ["page", 2, False], ["page", 3, True], ["page", 4, False]],
+         "alphabet": ["page", "we"], "defaults": ["never"], "pool": DEEP_POOL, "ks": [1, 2, 3, 4], "insert": True},
     ]
 
 
@@ -87,6 +99,10 @@ def model_pages(E, ref, weid, prefix_lrus, crawled_only):
 def pages_mode(E, P):
     t, h, pool = build(E, P)
     ref = h.ref
+    for i in P.get("flag_pages", []):
+        crawled = E.flag("mark%d" % i)
+        E.call("add_page", t.add_page, pool[i].lru, crawled=crawled, _allowed=())
+        ref.insert(E, pool[i], crawled)
     alive = h.alive()
     if not alive:
         return
